@@ -327,10 +327,82 @@ def check_case(case, ctx=None):
                            'status-%s' % obs['status']])
 
 
+# -- a predicate whose answer changes (an allow-list edited at run time) -----------------------
+flip_st = st.fixed_dictionaries({
+    'flip': st.just(True),
+    'impl': st.sampled_from(['thread', 'async']),
+    'first': st.sampled_from(['allowed', 'refused']),       # the verdict on the first request
+    'kinds': st.lists(st.sampled_from(['open', 'poll', 'post', 'options']), min_size=2,
+                      max_size=4),
+    'flip_after': st.integers(1, 3),
+})
+
+
+def check_flip(case, ctx=None):
+    """The policy is whatever the predicate says at the time of each request."""
+    impl = case['impl']
+    origin = 'http://tenant.example'
+    allowed = set([origin] if case['first'] == 'allowed' else [])
+    ex = Exec(impl, {'cors_allowed_origins': lambda o: o in allowed, 'http_compression': False})
+    rep = dict(case)
+    try:
+        ex.do({'op': 'open', 'transport': 'polling'})
+        sid = ex.sid_of(ex.sessions[0])
+        w = ex.world
+        h = [('Host', 'localhost'), ('Origin', origin)]
+        for i, kind in enumerate(case['kinds']):
+            if i == case['flip_after']:
+                if origin in allowed:
+                    allowed.discard(origin)
+                else:
+                    allowed.add(origin)
+            n_ev = len(w.app_log.events)
+            if kind == 'open':
+                r = w.http('GET', 'transport=polling&EIO=4', headers=h)
+            elif kind == 'poll':
+                ex.do({'op': 'app_send', 's': 0, 'data': rm.tag('S0.%d~q' % (i + 1))})
+                r = w.http('GET', 'transport=polling&EIO=4&sid=' + sid, headers=h)
+            elif kind == 'post':
+                r = w.http('POST', 'transport=polling&EIO=4&sid=' + sid, headers=h,
+                           body=b'4C0.%d~m' % (i + 1))
+            else:
+                r = w.http('OPTIONS', 'transport=polling&EIO=4&sid=' + sid, headers=h)
+            w.settle()
+            ok_now = origin in allowed
+            trig = '%s|request-%d|%s' % (kind, i + 1, 'after-revoke' if not ok_now and
+                                          case['first'] == 'allowed' else
+                                          'after-grant' if ok_now and case['first'] == 'refused'
+                                          else 'steady')
+            acao = [v for k, v in r.resp_headers if k.lower() == 'access-control-allow-origin']
+            if not ok_now:
+                if not r.done or r.status != 400:
+                    raise V(impl, 'refused-origin-let-in', 'callable|' + trig + '|got=%s' % r.status,
+                            'the predicate refuses %r now, the %s request got %s' % (
+                                origin, kind, r.status), rep)
+                if len(w.app_log.events) != n_ev:
+                    raise V(impl, 'refused-origin-fired-event', 'callable|' + trig,
+                            'events %r' % (w.app_log.events[n_ev:],), rep)
+                if acao:
+                    raise V(impl, 'allow-origin-echoes-refused-origin', 'callable|' + trig,
+                            'Origin %r is refused now but was echoed' % origin, rep)
+            else:
+                if r.done and r.status == 400:
+                    raise V(impl, 'allowed-origin-changes-behaviour', 'callable|' + trig + '|status',
+                            'the predicate allows %r now, the %s request got 400' % (origin, kind),
+                            rep)
+        if ctx:
+            ctx.case(rep, True, [impl, 'predicate-verdict-changes', 'first-' + case['first']])
+    finally:
+        ex.close()
+
+
 def run_shard(ctx):
     quick = ctx.tier == 'quick'
+    run_given(ctx, flip_st, lambda c: check_flip(c, ctx), max_examples=10 if quick else 200)
     run_given(ctx, case_st(), lambda c: check_case(c, ctx), max_examples=400 if quick else 12000)
 
 
 def replay(case, ctx):
+    if case.get('flip'):
+        return check_flip(case)
     check_case(case)
